@@ -35,11 +35,13 @@ theorem slice_add (prog : Prog) (now : Nat) (self : Pid) : ∀ (f1 f2 : Nat) (p 
         split
         · exact slice_add prog now self f1 f2 _
         · rfl
-      · dsimp only
-        split
-        · exact slice_add prog now self f1 f2 _
+      · split
         · rfl
-        · rfl
+        · dsimp only
+          split
+          · exact slice_add prog now self f1 f2 _
+          · rfl
+          · rfl
 
 /-! ### locality -/
 
